@@ -18,7 +18,7 @@ func init() {
 
 // strings over arbitrary bytes except CR (C13) / over arbitrary bytes (C14)
 var csvNasty = []string{"", "a", ",", "\"", "\"\"", "\n", "a,b", "a\"b", "x\ny", " lead", "trail ", "\xff", "a\xc3", "\x00", "é", "\\.", "\\", "'", "\t", "a\n", "\nb", ",,", "\"q\"", "0", "1.5", "true", "NaN", "long long long long long long long long long"}
-var jsonNasty = []string{"", "a", "\"", "\\", "/", "\x00", "\x01", "\x1f", "\x7f", "\x08", "\x0c", "\n", "\r", "\t", "\xe2\x80\xa8", "\xe2\x80\xa9", "é", "\xff", "a\xc3", "\xc3", "\xe2\x80", "\xed\xa0\x80", "\xf4\x90\x80\x80", "\xc0\xaf", "𝄞", "\\u0041", "a\"b\\c", "</script>", "\x80"}
+var jsonNasty = []string{"\ufffd", "x\ufffdy\ufffd", "\ufeffa", "\U0010ffff", "\ud7ff\ue000", "", "a", "\"", "\\", "/", "\x00", "\x01", "\x1f", "\x7f", "\x08", "\x0c", "\n", "\r", "\t", "\xe2\x80\xa8", "\xe2\x80\xa9", "é", "\xff", "a\xc3", "\xc3", "\xe2\x80", "\xed\xa0\x80", "\xf4\x90\x80\x80", "\xc0\xaf", "𝄞", "\\u0041", "a\"b\\c", "</script>", "\x80"}
 
 func floatVariety(g *Gen) string {
 	switch g.rng.Intn(8) {
